@@ -30,6 +30,21 @@ Oracle, per sendall call:
   * a call still parked when nothing can run any more (deadlock) is acceptable only while
     the channel is open for writing with a zero window and no timeout (it is waiting for
     the peer); parked although the channel is closed / EOF was sent = never woken.
+    "Zero window" is judged from the PEER's side of the flow control (RFC 4254 5.2), not from the channel's
+    own counter: initial window + every WINDOW_ADJUST dispatched to the channel - every DATA/EXTENDED_DATA
+    byte handed to the transport.  Parked for good, open for writing, no timeout, and that number > 0 =
+    "blocked-forever|peer-granted-window-unused" (the grants were not credited).
+
+Round 3 dimensions:
+  * argument kind of sendall/sendall_stderr: bytes, bytearray, memoryview, ASCII str, str with 1-4-byte
+    characters (size = characters; expected wire bytes = UTF-8 of the whole argument).  Text that goes out in
+    several chunks (larger than window or max packet - 64) is the interesting class.
+  * shutdown_read (local half-close of the READ side) in histories and application tasks, next to peer EOF:
+    neither stops the write side.
+  * "flow" family - a granting peer: the peer task ends with ("serve",) = consume whatever reached the wire and
+    re-grant it as WINDOW_ADJUST until the application tasks are done; sendalls of 1..8 windows (window
+    {1,5,100,5000,40000}), histories/peer prefixes weighted towards read-side half-closes.  With the oracle
+    clause above: several flow-control round trips per sendall, incl. on a half-closed channel.
 """
 import socket
 
@@ -51,7 +66,13 @@ RULE = (
     "half-close / close / peer close / peer EOF / loss event, or a timed sender was woken without getting window; distinct by SHA-1 of the case. "
     "Peer tasks may sleep (virtual time) between messages; 'timed' family: window {0,1,5} x timeout {0.5,1} x 1-2 senders (sendall/sendall_stderr of "
     "100..40000 bytes) || peer: 1-5 x (sleep 0.1..0.6, WINDOW_ADJUST 0|1|5) + <=2 further events; oracle adds: the window waits of one send() call never "
-    "restart once they add up to the timeout"
+    "restart once they add up to the timeout. "
+    "Round 3: argument kind in {bytes, bytearray, memoryview, ASCII str, str with 1-4-byte characters} (oracle: the wire carries the UTF-8 encoding of the "
+    "whole argument); shutdown_read among the local events; 'flow' family: window {1,5,100,5000,40000} x timeout {None,0,0.5} x history (<=2, weighted to peer EOF / "
+    "shutdown_read) x [peer: <=2 events then a SERVING receiver that re-grants every byte that reached the wire until the senders are done || 1-2 senders with "
+    "sendalls of 1..8 windows]; a parked call counts as legitimately waiting only if the window granted by the peer (initial + delivered WINDOW_ADJUSTs - bytes "
+    "handed over) is used up. Evidence classes: arg-<kind>[-in-several-chunks], non-ascii-text-in-several-chunks, granting-peer[-several-round-trips], "
+    "sendall-after-read-side-half-close[-spanning-several-grants], flow-family"
 )
 
 SIZES = [0, 1, 5, 100, 4032, 5000, 40000]
@@ -59,6 +80,14 @@ WINDOWS = [0, 1, 5, 100, 5000, 2 ** 21]
 ADJUSTS = [0, 1, 5, 100, 5000, 2 ** 20]
 
 size_st = st.one_of(st.integers(0, 300), st.sampled_from(SIZES), st.sampled_from(SIZES), st.just(300 * 1024))
+# argument kinds of sendall/sendall_stderr: what the API is observed to accept (bytes-like objects, and text - the repo's own
+# test_channel_send_misc sends a str with a non-ASCII character through sendall; Message.add_string encodes it as UTF-8).
+# An op without a kind (older replays) means "bytes".  For text the size is in CHARACTERS; the oracle compares the wire with
+# the UTF-8 encoding of the whole argument.
+KINDS = ["bytes", "bytearray", "memoryview", "ascii", "text"]
+kind_st = st.sampled_from(["bytes", "bytes", "bytes", "bytearray", "memoryview", "ascii", "text", "text"])
+_ALPHA = "a\u00a7\u20acz\U0001f600b\u00e9\u4e2d\u0416q~\u00ff"  # 1-, 2-, 3- and 4-byte characters
+_TEXT = "".join(_ALPHA[(i * i + i // 7) % len(_ALPHA)] for i in range(257))
 
 peer_op = st.one_of(
     st.tuples(st.just("adjust"), st.sampled_from(ADJUSTS)),
@@ -71,11 +100,12 @@ local_event = st.one_of(
     st.tuples(st.just("shutdown_write")),
     st.tuples(st.just("shutdown2")),
     st.tuples(st.just("close")),
+    st.tuples(st.just("shutdown_read")),  # half-close of the READ side only: sending must go on working
 )
 app_op = st.one_of(
-    st.tuples(st.just("sendall"), size_st),
-    st.tuples(st.just("sendall"), size_st),
-    st.tuples(st.just("sendall_stderr"), size_st),
+    st.tuples(st.just("sendall"), size_st, kind_st),
+    st.tuples(st.just("sendall"), size_st, kind_st),
+    st.tuples(st.just("sendall_stderr"), size_st, kind_st),
     local_event,
     st.tuples(st.just("sleep"), st.sampled_from([0.25, 1.0])),
 )
@@ -86,7 +116,7 @@ peer_sleep = st.tuples(st.just("sleep"), st.sampled_from([0.1, 0.2, 0.25, 0.3, 0
 # a timed sender with more to send than the window holds || the peer: (time passes, a WINDOW_ADJUST of 0 bytes or of a few bytes -
 # which a competing sender may take first) repeated 1-5 times, then anything
 _big = st.sampled_from([100, 4032, 5000, 40000])
-_timed_sender = st.tuples(st.tuples(st.sampled_from(["sendall", "sendall", "sendall_stderr"]), _big), st.lists(app_op, max_size=1)).map(lambda t: [t[0]] + list(t[1]))
+_timed_sender = st.tuples(st.tuples(st.sampled_from(["sendall", "sendall", "sendall_stderr"]), _big, kind_st), st.lists(app_op, max_size=1)).map(lambda t: [t[0]] + list(t[1]))
 _drip = st.tuples(peer_sleep, st.tuples(st.just("adjust"), st.sampled_from([0, 0, 0, 1, 5])))
 timed_case_st = st.fixed_dictionaries(
     {
@@ -114,11 +144,46 @@ case_st = st.fixed_dictionaries(
     }
 )
 
+# "flow" family: a RESPONSIVE peer.  ("serve",) = the receiving end of the channel as a task: whenever DATA / EXTENDED_DATA bytes
+# have reached the wire it consumes them and hands the same amount back as one WINDOW_ADJUST, until every application task is
+# done (RFC 4254 5.2: the receiver re-opens the window as it consumes).  With such a peer a sendall several windows long
+# completes on an open channel - also after the READ side was half-closed (peer EOF, shutdown_read) - or raises because of a
+# close / shutdown_write / loss / timeout; the sizes are multiples of the window so that the number of round trips stays small.
+FLOW_WINS = [1, 5, 100, 5000, 40000]
+
+
+def _flow_case(win):
+    fsize = st.tuples(st.integers(1, 7), st.integers(0, win)).map(lambda t: min(t[0] * win + t[1], 300 * 1024))
+    fsend = st.tuples(st.sampled_from(["sendall", "sendall", "sendall_stderr"]), fsize, kind_st)
+    # every sendall of this family is window-proportional (<= 8 round trips): a serving peer would otherwise turn a 300 KiB
+    # sendall through a 1-byte window into more scheduler steps than the step budget allows
+    fother = st.one_of(local_event, st.tuples(st.just("sleep"), st.sampled_from([0.25, 1.0])))
+    fapp = st.tuples(fsend, st.lists(st.one_of(fsend, fsend.map(lambda v: v), fother), max_size=1)).map(lambda t: [t[0]] + list(t[1]))
+    half_close = st.one_of(st.tuples(st.just("peer_eof")), st.tuples(st.just("shutdown_read")))
+    hist_op = st.one_of(half_close, half_close.map(lambda v: v), st.tuples(st.just("adjust"), st.sampled_from([0, 1, 5, 100])), peer_op, local_event)
+    return st.fixed_dictionaries(
+        {
+            "win": st.just(win),
+            "maxpkt": st.sampled_from([4096, 32768]),
+            "timeout": st.sampled_from([None, None, None, 0.0, 0.5]),
+            "history": st.lists(hist_op, max_size=2),
+            "peer": st.lists(st.one_of(half_close, peer_op, peer_sleep), max_size=2).map(lambda l: list(l) + [("serve",)]),
+            "apps": st.lists(fapp, min_size=1, max_size=2),
+            "sched": S.schedule_strategy(max_pre=4, max_gap=60, max_forced=12),
+            "trace": st.booleans(),
+        }
+    )
+
+
+flow_case_st = st.sampled_from(FLOW_WINS).flatmap(_flow_case)
+
 TRACED = {
     "sendall", "sendall_stderr", "send", "send_stderr", "_send", "_wait_for_send_window", "shutdown", "shutdown_write", "close",
     "_close_internal", "_send_eof", "_handle_close", "_handle_eof", "_set_closed", "_window_adjust", "_unlink",
 }
-EVENTS = ("shutdown_write", "shutdown2", "close", "peer_eof", "peer_close", "loss")
+EVENTS = ("shutdown_write", "shutdown2", "close", "peer_eof", "peer_close", "loss", "shutdown_read")
+READ_HALF_CLOSE = ("peer_eof", "shutdown_read")
+DATA_TYPES = ("DATA", "EXTENDED_DATA")
 SPIN_FAIR = 20
 SPIN_LIMIT = 120
 
@@ -129,6 +194,21 @@ class SpinAbort(S.HarnessAbort):
 
 def payload(n, salt):
     return bytes(((i * 7 + salt * 13 + 3) % 251) for i in range(n)) if n < 4096 else (bytes(range(251)) * (n // 251 + 1))[salt % 251: salt % 251 + n]
+
+
+def make_arg(n, salt, kind):
+    """-> (the object passed to sendall, the bytes that have to reach the wire).  Text: n characters, position dependent."""
+    if kind in ("bytes", "bytearray", "memoryview"):
+        raw = payload(n, salt)
+        return {"bytes": bytes, "bytearray": bytearray, "memoryview": memoryview}[kind](raw), raw
+    if kind == "ascii":
+        t = "".join(chr(32 + c % 95) for c in payload(n, salt))
+        return t, t.encode("ascii")
+    if kind == "text":
+        off = (salt * 13 + 3) % len(_TEXT)
+        t = (_TEXT * ((n + off) // len(_TEXT) + 1))[off: off + n]
+        return t, t.encode("utf-8")
+    raise HarnessError("bad argument kind %r" % (kind,))
 
 
 class Bench:
@@ -146,6 +226,15 @@ class Bench:
         self.events = []  # (log index, name)
         self.zeros = {}
         self.rewaits = 0  # send calls that went back to waiting after a wake-up that left them without window
+        # the peer's side of the flow control (RFC 4254 5.2), independent of the channel's own bookkeeping: window the peer has
+        # granted so far (initial window + every WINDOW_ADJUST that was dispatched to the channel)
+        self.granted = case["win"]
+        self.acked = 0  # wire bytes the serving peer has consumed and re-granted
+        self._wire_seen = 0
+        self._wire_bytes = 0
+        self.napps = len(case["apps"])
+        self.apps_done = 0
+        self.serve_grants = 0
         self._wrap_window_wait()
         self._wrap_send("send")
         self._wrap_send("send_stderr")
@@ -213,12 +302,13 @@ class Bench:
             self.events.append((len(s.log), k))
             s.note(("event", k, tname))
         if k in ("sendall", "sendall_stderr"):
-            data = payload(op[1], salt)
-            rec = {"op": k, "size": op[1], "data": data, "task": tname, "h0": len(self.handed), "h1": None, "start": len(s.log), "out": None}
+            kind = op[2] if len(op) > 2 else "bytes"
+            arg, data = make_arg(op[1], salt, kind)
+            rec = {"op": k, "size": op[1], "kind": kind, "data": data, "task": tname, "h0": len(self.handed), "h1": None, "start": len(s.log), "out": None}
             self.calls.append(rec)
             self.zeros[tname] = 0
             try:
-                r = getattr(chan, k)(data)
+                r = getattr(chan, k)(arg)
                 rec["out"] = ("returned", r)
             except SpinAbort:
                 rec["out"] = ("spin",)
@@ -234,7 +324,21 @@ class Bench:
                 rec["h1"] = len(self.handed)
                 rec["end"] = len(s.log)
         elif k == "adjust":
-            ft.deliver(CB.MSG_CHANNEL_WINDOW_ADJUST, 1, op[1])
+            if ft.deliver(CB.MSG_CHANNEL_WINDOW_ADJUST, 1, op[1]):
+                self.granted += op[1]
+        elif k == "serve":
+            # the receiving peer: consume what reached the wire, re-grant it, until the application tasks are done
+            while True:
+                s.block_until(lambda: self.unacked() > 0 or self.apps_done >= self.napps, ("peer", "waiting-for-data"))
+                n = self.unacked()
+                if n == 0:
+                    break
+                self.acked += n
+                if ft.deliver(CB.MSG_CHANNEL_WINDOW_ADJUST, 1, n):
+                    self.granted += n
+                    self.serve_grants += 1
+        elif k == "shutdown_read":
+            chan.shutdown_read()
         elif k == "peer_eof":
             ft.deliver(CB.MSG_CHANNEL_EOF, 1)
         elif k == "peer_close":
@@ -252,9 +356,23 @@ class Bench:
         else:
             raise HarnessError("bad op %r" % (op,))
 
+    def unacked(self):
+        w = self.ft.wire
+        while self._wire_seen < len(w):
+            m = w[self._wire_seen]
+            self._wire_seen += 1
+            if m["type"] in DATA_TYPES:
+                self._wire_bytes += len(m["data"])
+        return self._wire_bytes - self.acked
+
+    def peer_window(self):
+        """What the peer still allows: everything it granted minus every DATA / EXTENDED_DATA byte handed to the transport."""
+        return self.granted - sum(len(m["data"]) for m in self.handed if m["type"] in DATA_TYPES)
+
     def state(self):
         c = self.chan
-        return {"closed": bool(c.closed), "eof_sent": bool(c.eof_sent), "window": c.out_window_size, "timeout": c.timeout, "active": bool(self.ft.active)}
+        return {"closed": bool(c.closed), "eof_sent": bool(c.eof_sent), "window": c.out_window_size, "timeout": c.timeout, "active": bool(self.ft.active),
+                "peer_window": self.peer_window(), "eof_received": bool(c.eof_received)}
 
     def run(self, case):
         s = self.s
@@ -268,8 +386,12 @@ class Bench:
 
         def mk(tname, ops, base):
             def body():
-                for oi, op in enumerate(ops):
-                    self.do(op, base + oi, tname)
+                try:
+                    for oi, op in enumerate(ops):
+                        self.do(op, base + oi, tname)
+                finally:
+                    if tname != "transport":
+                        self.apps_done += 1
 
             return body
 
@@ -298,6 +420,17 @@ def judge(bench, res, case):
         if after_event:
             nontrivial = True
             classes.add("sendall-after-or-overlapping-event")
+        if rec["size"] > 0 and any(idx <= rec["start"] for idx, n in bench.events if n in READ_HALF_CLOSE):
+            classes.add("sendall-after-read-side-half-close")
+            if bench.serve_grants and len(mine) > 1:
+                classes.add("sendall-after-read-side-half-close-spanning-several-grants")
+        kind = rec.get("kind", "bytes")
+        classes.add("arg-" + kind)
+        if len(mine) > 1:
+            classes.add("arg-%s-in-several-chunks" % kind)
+            if kind == "text" and len(data) > rec["size"]:
+                nontrivial = True
+                classes.add("non-ascii-text-in-several-chunks")
         if out is None:
             # still inside the call when the run ended
             stt = rec.get("state") or bench.state()
@@ -306,6 +439,10 @@ def judge(bench, res, case):
                     viol.append(("blocked-forever", "closed-but-not-woken", "%s parked; state=%r waits=%r" % (where, stt, res.waits)))
                 elif stt["eof_sent"]:
                     viol.append(("blocked-forever", "eof_sent-but-not-woken", "%s parked in the window wait although EOF was sent (shutdown_write does not notify); state=%r waits=%r" % (where, stt, res.waits)))
+                elif stt["timeout"] is None and stt["peer_window"] > 0 and stt["active"]:
+                    # open for writing, the peer has granted window that was never used, and the call sleeps for good
+                    viol.append(("blocked-forever", "peer-granted-window-unused:%s" % ("read-side-half-closed" if stt["eof_received"] else "open"),
+                                 "%s parked although the peer's WINDOW_ADJUSTs leave %d bytes of window (the channel believes %r); state=%r waits=%r" % (where, stt["peer_window"], stt["window"], stt, res.waits)))
                 elif stt["window"] == 0 and stt["timeout"] is None:
                     classes.add("legit-blocked-on-zero-window")
                 else:
@@ -352,6 +489,10 @@ def judge(bench, res, case):
             viol.append(("operation-raised", "%s" % type(info.exc).__name__, "%s: %s" % (name, info.tb)))
     for me, t, spent, nth in bench.over[:1]:
         viol.append(("timed-send-waits-beyond-its-timeout", "wait-no-%s" % ("2" if nth == 2 else ">2"), "task %s: a send call with timeout %s began its wait no %d on the window although its earlier waits had already lasted %.3f virtual seconds" % (me, t, nth, spent)))
+    if bench.serve_grants:
+        classes.add("granting-peer")
+        if bench.serve_grants >= 2:
+            classes.add("granting-peer-several-round-trips")
     if bench.rewaits:
         classes.add("timed-or-untimed-sender-woken-without-window-and-waiting-again")
     if case.get("timeout") and bench.rewaits:
@@ -397,8 +538,9 @@ def execute(ctx, case, extra_classes=()):
 def run(ctx):
     ctx.set_budget(60, 840)
     ctx.assume("'loops forever' = send() returns 0 for 120 consecutive iterations, the last 100 of them after every other task has finished or is parked for good (state frozen)")
-    ctx.explore(case_st, lambda c: execute(ctx, c), ctx.scale(2800, 26000))
-    ctx.explore(timed_case_st, lambda c: execute(ctx, c, ("timed-family",)), ctx.scale(700, 7000), seed_offset=3)
+    ctx.explore(case_st, lambda c: execute(ctx, c), ctx.scale(2100, 24000))
+    ctx.explore(timed_case_st, lambda c: execute(ctx, c, ("timed-family",)), ctx.scale(600, 7000), seed_offset=3)
+    ctx.explore(flow_case_st, lambda c: execute(ctx, c, ("flow-family",)), ctx.scale(450, 6000), seed_offset=5)
 
 
 def replay(ctx, case):
